@@ -217,6 +217,14 @@ func (b *Bag) UnmarshalFlag(s string) error {
 // StrList is a named slice type (a rest positional of this type is still a list).
 type StrList []string
 
+// AccList is a named slice type that unmarshals itself: every argument it is handed is appended.
+type AccList []string
+
+func (a *AccList) UnmarshalFlag(s string) error {
+	*a = append(*a, s)
+	return nil
+}
+
 var (
 	tString   = reflect.TypeOf("")
 	tBool     = reflect.TypeOf(false)
